@@ -109,27 +109,34 @@ func (c *ClusterNodes) loopClusterNodes() {
 	for {
 		select {
 		case msg := <-EngineGlobal.clusterChan:
+			// A reply that cannot be used leaves the current table in force; the
+			// loop keeps running so that the next usable reply is adopted.
 			if len(msg) < 3 {
-				return
+				continue
 			}
 			if msg[0] == '+' && msg[1] == 'O' && msg[2] == 'K' {
-				return
+				continue
 			}
 			if msg[0] == '$' && msg[1] == '-' && msg[2] == '1' {
-				return
+				continue
 			}
 
-			length, err := parseLen(msg[1 : bytes.IndexByte(msg, '\n')-1])
+			nl := bytes.IndexByte(msg, '\n')
+			if msg[0] != '$' || nl < 2 || nl+1 > len(msg)-3 {
+				logging.Errorf("[cluster loop] update cluster nodes: nodes info invalid")
+				continue
+			}
+			length, err := parseLen(msg[1 : nl-1])
 			if err != nil {
 				logging.Errorf("[cluster loop] update cluster nodes: nodes info invalid: %s", err)
-				return
+				continue
 			}
 			if length > 163840 {
 				logging.Errorf("[cluster loop] update cluster nodes: nodes info too large > 163840")
-				return
+				continue
 			}
 
-			if err := c.updateClusterNodes(string(msg[bytes.IndexByte(msg, '\n')+1 : len(msg)-3])); err != nil {
+			if err := c.updateClusterNodes(string(msg[nl+1 : len(msg)-3])); err != nil {
 				logging.Errorf("[cluster loop] update cluster nodes err: %s", err)
 			}
 		}
